@@ -31,7 +31,7 @@ from typing import List, Dict, Tuple
 
 import uuid
 
-from ..abc_property_graph import ABCPropertyGraph, ABCPropertyGraphConstants
+from ..abc_property_graph import ABCPropertyGraph, ABCPropertyGraphConstants, PropertyGraphQueryException
 from fim.slivers.delegations import DelegationType
 from fim.slivers.attached_components import AttachedComponentsInfo
 
@@ -75,10 +75,14 @@ class ABCCBMPropertyGraph(ABCPropertyGraph):
         :return:
         """
         assert graph_id is not None
+        # the snapshot must be there (it is consumed by a rollback), otherwise we would be left with nothing
+        cbm_temp = self.importer.cast_graph(graph_id=graph_id)
+        if not cbm_temp.graph_exists():
+            raise PropertyGraphQueryException(graph_id=graph_id, node_id=None,
+                                              msg="Unable to roll back, no such snapshot")
         # delete self
         self.delete_graph()
         # clone other graph into self
-        cbm_temp = self.importer.cast_graph(graph_id=graph_id)
         # renumber cbm temp to be the original graph id
         cbm_temp.update_nodes_property(prop_name=ABCPropertyGraphConstants.GRAPH_ID,
                                        prop_val=self.graph_id)
